@@ -319,6 +319,37 @@ func Run(c *ev.Ctx) {
 			c.Violate("C19:secondary-differs-after-round:policy:large-round", fmt.Sprintf("after one round over %d policies of 100 KiB each (several raft batches) %d of them are missing or differ in the secondary (it holds %d)", n, missing, len(got)), replay)
 		}
 	}
+	// the replicators of the three types run independently: a role may arrive one round before the policy it links.
+	// Once the policy round has run too, the secondary's role must equal the primary's - links included.
+	{
+		w := world.New()
+		apply := func(t structs.MessageType, req interface{}) error {
+			r := w.ApplyReq("replication", t, req)
+			if strings.HasPrefix(r, "err:") || strings.HasPrefix(r, "PANIC") {
+				return fmt.Errorf("%s", r)
+			}
+			return nil
+		}
+		role := mkRole("a", 3, "", 15)
+		pol := mkPolicy("a", 1, "", 14)
+		remote := &consul.VerifRemoteACL{Index: 20, Roles: structs.ACLRoles{role}, Policies: structs.ACLPolicies{pol}}
+		replay := map[string]any{"kind": "role", "order": "role round, policy round, role round"}
+		var err error
+		for _, kind := range []string{"role", "policy", "role"} {
+			if _, e := consul.VerifReplicateACLRound(kind, w.FSM, apply, remote, 0); e != nil {
+				err = fmt.Errorf("%s round: %v", kind, e)
+				break
+			}
+		}
+		atomic.AddInt64(&evals, 1)
+		atomic.AddInt64(&nontrivial, 1)
+		if err != nil {
+			c.Violate("C19:replication-round-fails:role:before-its-policy", err.Error(), replay)
+		} else if got, want := localSet(w, "role")[role.ID], renderRole(role); got != want {
+			c.Violate("C19:secondary-differs-after-round:role:before-its-policy", fmt.Sprintf("the role round ran before the policy round that delivers the policy the role links; after both (and one more role round) the secondary holds\n  %s\nthe primary\n  %s", got, want), replay)
+		}
+		note("role:before-its-policy")
+	}
 	n := 3
 	if quick {
 		n = 2
